@@ -6,6 +6,9 @@ C34 driver.  One line per *phase* of a generated RMA program:
 
   ph <kind> <n> <w> <du> M <n*w ints: windows before the phase> (B <origin> | <call>)*  =>  W <n*w ints> (R <id> <k> <k ints>)* (E <id>)*
 
+<du>: the displacement unit every rank gave to MPI_Win_create: one number (all ranks the same) or `du_0,du_1,..,du_{n-1}`
+(one per rank); the displacement of a call is converted with the unit of the call's *target* (`dispIndexAt`).
+
 kind: X exclusive-lock epochs (a `B` starts an epoch = atomic block), S lock_all, F fence (every call is its own block;
 `B <origin>` just switches the origin), N calls outside any epoch (every call must fail with an error, no effect).
 calls:  put id t disp cnt v*  |  get id t disp cnt  |  acc id t disp cnt op v*  |  gacc id t disp cnt op v*
@@ -31,7 +34,7 @@ structure PState where
   kind : String
   n : Nat
   w : Nat
-  du : Nat
+  dus : List Nat                          -- displacement unit of every rank's window
   cur : Nat := 0                          -- current origin
   blocks : List (Nat × List (Nat × Call)) := []    -- reversed: (origin, calls reversed with ids)
 
@@ -51,22 +54,31 @@ partial def parseCalls (p : PState) : List String → Option PState
   | "put" :: id :: t :: d :: n :: rest => do
     let (id, t, d, n) := (← id.toNat?, ← t.toNat?, ← d.toNat?, ← n.toNat?)
     let (vals, rest) ← takeInts n rest
-    parseCalls (p.addCall id (.put t (← dispIndex p.du d) vals)) rest
+    parseCalls (p.addCall id (.put t (← dispIndexAt p.dus t d) vals)) rest
   | "get" :: id :: t :: d :: n :: rest => do
     let (id, t, d, n) := (← id.toNat?, ← t.toNat?, ← d.toNat?, ← n.toNat?)
-    parseCalls (p.addCall id (.get id t (← dispIndex p.du d) n)) rest
+    parseCalls (p.addCall id (.get id t (← dispIndexAt p.dus t d) n)) rest
   | "acc" :: id :: t :: d :: n :: op :: rest => do
     let (id, t, d, n) := (← id.toNat?, ← t.toNat?, ← d.toNat?, ← n.toNat?)
     let (vals, rest) ← takeInts n rest
-    parseCalls (p.addCall id (.acc t (← dispIndex p.du d) (← parseOp op) vals)) rest
+    parseCalls (p.addCall id (.acc t (← dispIndexAt p.dus t d) (← parseOp op) vals)) rest
   | "gacc" :: id :: t :: d :: n :: op :: rest => do
     let (id, t, d, n) := (← id.toNat?, ← t.toNat?, ← d.toNat?, ← n.toNat?)
     let (vals, rest) ← takeInts n rest
-    parseCalls (p.addCall id (.gacc id t (← dispIndex p.du d) (← parseOp op) vals)) rest
+    parseCalls (p.addCall id (.gacc id t (← dispIndexAt p.dus t d) (← parseOp op) vals)) rest
   | "cas" :: id :: t :: d :: cmp :: new :: rest => do
     let (id, t, d) := (← id.toNat?, ← t.toNat?, ← d.toNat?)
-    parseCalls (p.addCall id (.cas id t (← dispIndex p.du d) (← cmp.toInt?) (← new.toInt?))) rest
+    parseCalls (p.addCall id (.cas id t (← dispIndexAt p.dus t d) (← cmp.toInt?) (← new.toInt?))) rest
   | _ => none
+
+/-- `4` (uniform) or `4,1,8` (per rank; must have n entries) -/
+def parseDus (n : Nat) (tok : String) : Option (List Nat) :=
+  let l := (tok.splitOn ",").map String.toNat?
+  if !l.all Option.isSome then none
+  else
+    match l.filterMap id with
+    | [du] => some (List.replicate n du)
+    | dus => if dus.length == n then some dus else none
 
 def chunk (w : Nat) : Nat → List Int → List (List Int)
   | 0, _ => []
@@ -90,12 +102,12 @@ def sortNat (l : List Nat) : List Nat := (l.toArray.qsort (· < ·)).toList
 def judge (q a : List String) : Verdict :=
   match q with
   | "ph" :: kind :: n :: w :: du :: "M" :: rest =>
-    match n.toNat?, w.toNat?, du.toNat? with
-    | some n, some w, some du =>
+    match n.toNat?, w.toNat?, (n.toNat?).bind (fun n => parseDus n du) with
+    | some n, some w, some dus =>
       match takeInts (n * w) rest with
       | none => .bad
       | some (m0l, rest) =>
-        match parseCalls { kind := kind, n := n, w := w, du := du } rest, a with
+        match parseCalls { kind := kind, n := n, w := w, dus := dus } rest, a with
         | some p, "W" :: arest =>
           match takeInts (n * w) arest with
           | none => .bad
